@@ -1,26 +1,27 @@
 (** C06 - Compression keeps the message, stays valid and never grows the packet.
 
-    PARTIAL.  Proved at packet level (C06_succeeds_and_never_grows): for every accepted packet that
-    decompression leaves unchanged (i.e. every accepted pointer-free packet, by C05), [compress]
-    returns a packet - no error and none of the model's Panic outcomes (slice ranges, the
-    dictionary's assertions, patch positions, fuel) - that is no longer than its input; the proof
-    carries "output so far <= input consumed so far" and the dictionary's well-formedness through the
-    question and the three section walks.  Proved for one name (every pointer-free name of at most 255 bytes given by its labels,
-    wherever it sits in the input, every well-formed dictionary, every output so far): name emission
-    succeeds and appends the first k labels verbatim followed by the root byte (k = all labels) or by
-    a two-byte pointer to an offset the dictionary holds for a candidate that compares equal to the
-    remaining suffix and is not longer; the emission is never longer than the name; the dictionary
-    stays well-formed and grows only by (output offset where a suffix of this name was just written,
-    that suffix), below offset 16384 (C06_name_emission).  The dictionary's comparison on
-    pointer-free names is label-wise equality up to ASCII case (C06_dictionary_comparison).  Also:
-    whatever [compress] returns starts with the input's 12 header bytes, and name emission only
-    appends to the output.  The packet-level statement (accepted, not longer, same records up to
-    name case, question name byte-identical, round trip through decompression, every pointer
-    designates its suffix in the output) is decided on every run by the correspondence and the
-    reference-decoder oracle.  Known finding (class chain-depth): nested suffixes can build pointer
-    chains of more than 16 hops, which the parser rejects. *)
+    Proved for every accepted packet that decompression leaves unchanged (i.e. every accepted pointer-free packet, by C05):
+    (i) [compress] returns a packet - no error, none of the model's Panic outcomes (slice ranges, the dictionary's assertions,
+    patch positions, fuel) - that is no longer than its input (C06_succeeds_and_never_grows);
+    (ii) that packet is the input's header, the question name byte for byte, the question's type and class, and then record by
+    record an owner name decoding to the same labels up to ASCII case, the same type / class / TTL bytes, a data length equal to
+    the length of the data that follows, and the same data with names inside NS / CNAME / PTR / MX / SOA data decoding to the same
+    labels up to case (C06_content).  Names of the output are read by a reference decoder that follows any number of strictly
+    backward pointers; it is a function (C06_reference_decoder_is_a_function) and agrees with the parser's name policy wherever
+    that policy accepts (C06_reference_decoder_reads_policy_names); "every pointer designates the suffix it stands for" is part
+    of (ii): a pointer is only ever emitted to an offset of the output where the decoder reads a name equal up to case to the
+    remaining suffix (the dictionary invariant [dict_inv] of Proofs/CompressContent.v);
+    (iii) whenever the parser accepts the output, the output reads as the same message up to the case of names - same question,
+    same counts, record by record same type, class, TTL and data - and decompressing it gives the pointer-free encoding of that
+    reading (C06_same_message: "same records" and "round trip").
+    Not proved because false: that the parser always accepts the output.  Nested suffixes can build pointer chains of more than
+    16 hops, which the parser rejects - known finding chain-depth; acceptance is a hypothesis of (iii) and is decided on every
+    run, for every generated packet, by the correspondence and the reference-decoder oracle.
+    Per name: C06_name_emission (first k labels + root, or + a pointer to a remembered candidate equal up to case and not
+    longer; the dictionary grows only by suffixes just written, below offset 16384), C06_dictionary_comparison. *)
 From DV Require Import Model.Base Model.Parser Model.Header Model.Readers Model.Uncompress Model.Compress
-  Spec.NameSpec Proofs.Hoare Proofs.CompressFrame Proofs.RenameSpec Proofs.CompressName Proofs.CompressSize.
+  Spec.NameSpec Proofs.Hoare Proofs.CompressFrame Proofs.RenameSpec Proofs.CompressName Proofs.CompressSize Proofs.PlainWf Proofs.CompressContent.
+From DV Require Import Spec.PacketSpec Spec.RecordSpec Spec.PlainSpec.
 
 Theorem C06_header_kept : forall (p out : bytes),
   compress p = Ok out -> firstn 12 out = firstn 12 p /\ 12 <= length out.
@@ -83,3 +84,97 @@ Example C06_sample :
     Ok (repeat 0%N 40 ++ [3;119;119;119;192;12]%N, {| sd_index := 2; sd_entries := [(12, wire_of_labels [[101;120;97;109;112;108;101]%N]);
         (40, wire_of_labels [[119;119;119];[101;120;97;109;112;108;101]]%N)] |}, 6, 13).
 Proof. split; [unfold sd_wf; cbn; lia|vm_compute; reflexivity]. Qed.
+
+(** ** What the output says
+
+    The output is read with a reference decoder of names that follows any number of pointers, each strictly backwards
+    ([dec_in out o ls e]: the name at [o] has labels [ls]; its in-place encoding ends at [e]).  It is a function of the
+    offset, and it reads what the parser's name policy reads wherever that policy accepts a name. *)
+Example C06_reference_decoder_means : forall out o ls e, dec_in out o ls e <->
+  (ls = [] /\ seg out o [0%N] /\ e = o + 1) \/
+  (exists l ls', ls = l :: ls' /\ lab l /\ seg out o (N.of_nat (length l) :: l) /\ dec_in out (o + 1 + length l) ls' e) \/
+  (exists t e', seg out o (ptr_bytes t) /\ t < o /\ (N.of_nat t < 16384)%N /\ dec_in out t ls e' /\ e = o + 2).
+Proof.
+  intros out o ls e. split.
+  - intros H. inversion H as [o' H1|o' l ls' e0 Hl H1 H2|o' t ls' e' H1 H2 H3 H4]; subst.
+    + left. auto.
+    + right. left. exists l, ls'. auto.
+    + right. right. exists t, e'. auto.
+  - intros [(-> & H & ->)|[(l & ls' & -> & Hl & H1 & H2)|(t & e' & H1 & H2 & H3 & H4 & ->)]].
+    + apply di_root. exact H.
+    + apply di_lab; assumption.
+    + apply (di_ptr out o t ls e'); assumption.
+Qed.
+
+Example C06_seg_means : forall out o X, seg out o X <-> exists A B, out = A ++ X ++ B /\ length A = o.
+Proof. intros. split; intros HH; exact HH. Qed.
+
+Theorem C06_reference_decoder_is_a_function : forall out o ls e ls' e', dec_in out o ls e -> dec_in out o ls' e' -> ls = ls' /\ e = e'.
+Proof. intros out o ls e ls' e' H H'. exact (dec_in_fun out o ls e H ls' e' H'). Qed.
+Print Assumptions C06_reference_decoder_is_a_function.
+
+Theorem C06_reference_decoder_reads_policy_names : forall p off ls e, bytes_ok p -> cname_l p off ls e -> dec_in p off ls e.
+Proof. exact cname_dec_in. Qed.
+Print Assumptions C06_reference_decoder_reads_policy_names.
+
+(** the encoding of records in the output, spelled out *)
+Example C06_encoding_means :
+  (forall out o ls e, name_enc out o ls e <-> exists ls', dec_in out o ls' e /\ ci_labels ls ls') /\
+  (forall out o ls e, rdata_enc out o (RdName ls) e <-> name_enc out o ls e) /\
+  (forall out o pref ls e, rdata_enc out o (RdMx pref ls) e <-> seg out o pref /\ name_enc out (o + length pref) ls e) /\
+  (forall out o l1 l2 tail e, rdata_enc out o (RdSoa l1 l2 tail) e <->
+     exists m m2, name_enc out o l1 m /\ name_enc out m l2 m2 /\ seg out m2 tail /\ e = m2 + length tail) /\
+  (forall out o b e, rdata_enc out o (RdRaw b) e <-> seg out o b /\ e = o + length b) /\
+  (forall p out o r x e, rec_enc p out o (r, x) e <->
+     exists ne, name_enc out o (rv_labels r) ne /\ seg out ne (firstn 8 (skipn (rv_name_end r) p)) /\
+       seg out (ne + 8) (be16_bytes (N.of_nat (e - (ne + 10)))) /\ (N.of_nat (e - (ne + 10)) < 65536)%N /\ rdata_enc out (ne + 10) x e) /\
+  (forall p out o e, recs_enc p out o [] e <-> o = e) /\
+  (forall p out o rx l e, recs_enc p out o (rx :: l) e <-> exists m, rec_enc p out o rx m /\ recs_enc p out m l e).
+Proof. split; [|split; [|split; [|split; [|split; [|split; [|split]]]]]]; intros; (split; intros HH; exact HH). Qed.
+
+(** For every accepted pointer-free packet: [compress] returns a packet made of the input's 12 header bytes, the question
+    name byte for byte, the input's 4 bytes of question type and class, and then, record by record in the order answers,
+    authority, additional (OPT included), an owner name that decodes to the input's labels up to ASCII case, the input's
+    8 bytes of type / class / TTL, a data-length field equal to the length of the data that follows, and the data: the
+    same bytes, except that a name inside NS / CNAME / PTR / MX / SOA data again decodes to the same labels up to case.
+    Every pointer the output contains therefore designates (in the output) a name equal up to case to the suffix it
+    stands for. *)
+Theorem C06_content : forall p v, bytes_ok p -> parse p = Ok v -> uncompress p = Ok p ->
+  exists out qls qt lxa lxn lxr X,
+    compress p = Ok out /\ bytes_ok out /\ reading p qls qt lxa lxn lxr /\
+    out = (firstn 12 p ++ wire_of_labels qls ++ firstn 4 (skipn (12 + length (wire_of_labels qls)) p)) ++ X /\
+    recs_enc p out (12 + length (wire_of_labels qls) + 4) (lxa ++ lxn ++ lxr) (length out).
+Proof. exact compress_content. Qed.
+Print Assumptions C06_content.
+
+Example C06_ci_rec_means : forall r x r' x', ci_rec (r, x) (r', x') <->
+  ci_labels (rv_labels r) (rv_labels r') /\ rv_type r' = rv_type r /\ rv_class r' = rv_class r /\ rv_ttl r' = rv_ttl r /\
+  match x, x' with
+  | RdName a, RdName b => ci_labels a b
+  | RdMx pa a, RdMx pb b => pa = pb /\ ci_labels a b
+  | RdSoa a1 a2 ta, RdSoa b1 b2 tb => ci_labels a1 b1 /\ ci_labels a2 b2 /\ ta = tb
+  | RdRaw a, RdRaw b => a = b
+  | _, _ => False
+  end.
+Proof. intros. split; intros HH; exact HH. Qed.
+
+(** Whenever the parser accepts that output (it does unless a chain of nested suffixes is deeper than its 16 hops - known
+    finding chain-depth), the output has the same declarative reading as the input up to the case of names - same question,
+    same number of records in each section, record by record the same type, class, TTL and data - and its decompression
+    is the pointer-free encoding of that reading (round trip up to case). *)
+Theorem C06_same_message : forall p v out v', bytes_ok p -> parse p = Ok v -> uncompress p = Ok p ->
+  compress p = Ok out -> parse out = Ok v' ->
+  exists qls qt lxa lxn lxr lxa' lxn' lxr',
+    reading p qls qt lxa lxn lxr /\ reading out qls qt lxa' lxn' lxr' /\
+    Forall2 ci_rec lxa lxa' /\ Forall2 ci_rec lxn lxn' /\ Forall2 ci_rec lxr lxr' /\
+    uncompress out = Ok (plain_packet_of out qls qt lxa' lxn' lxr').
+Proof. exact compress_same_message. Qed.
+Print Assumptions C06_same_message.
+
+(** Non-vacuity: the 54-byte packet of C06_hypotheses_met compresses to a packet the parser accepts. *)
+Example C06_same_message_hypotheses_met :
+  let p := [0;1; 129;128; 0;1; 0;2; 0;0; 0;0;  1;97;0; 0;1; 0;1;
+            1;97;0; 0;1; 0;1; 0;0;0;9; 0;4; 1;2;3;4;
+            1;98;1;97;0; 0;2; 0;1; 0;0;0;9; 0;3; 1;97;0]%N in
+  match compress p with Ok out => match parse out with Ok _ => True | _ => False end | _ => False end.
+Proof. vm_compute. exact I. Qed.
